@@ -83,6 +83,8 @@ func runC02(k *kernel.K) {
 	n := simnet.New(k)
 	n.DefaultPolicy = simnet.ChunkPolicy(w.Pick([]int{5, 2, 2, 1, 0, 2}))
 	n.TCPLikeConns = w.Chance(1, 2)
+	// (no reset-on-close personality here: after a hijack the proxy must close without reading, so a
+	// hijacker that leaves input unread takes the reset upon itself)
 	n.LogSystemOps = true
 	proxy, l := newProxyA(k, n)
 	k.AddSource(k.GateSource)
